@@ -177,6 +177,71 @@ def install():
         return (int(t), True) if isinstance(t, int) else (0, False)
     wrap_init(tebd_mod.PtTebd, describe_tebd)
     wrap_compute(tebd_mod.PtTebd, "compute", observe_tebd, target_step)
+
+    # ---- stateless front ends: compute_dynamics / compute_dynamics_with_field (one "call" event each)
+    import inspect
+    from oqupy import system_dynamics as sd_mod
+
+    def pt_list(x):
+        if x is None:
+            return []
+        if isinstance(x, (list, tuple)):
+            out = []
+            for y in x:
+                out += pt_list(y)
+            return out
+        return [x]
+
+    def wrap_fn(name, pts_arg, times_of):
+        orig = getattr(sd_mod, name)
+        sig = inspect.signature(orig)
+
+        def fn(*a, **kw):
+            raised = True
+            out = None
+            try:
+                out = orig(*a, **kw)
+                raised = False
+                return out
+            finally:
+                try:
+                    try:
+                        b = sig.bind(*a, **kw)
+                    except TypeError:
+                        return                 # pylint: disable=lost-exception   (a call that does not even bind: no event)
+                    b.apply_defaults()
+                    arg = b.arguments
+                    pts = [p for p in pt_list(arg.get(pts_arg)) if type(p).__name__ != "TrivialProcessTensor"]
+                    lens = [len(p) for p in pts]
+                    dt = arg.get("dt")
+                    if dt is None:
+                        dts = [p.dt for p in pts if p.dt is not None]
+                        dt = dts[0] if dts else None
+                    start = arg.get("start_time") or 0.0
+                    ns = arg.get("num_steps")
+                    s_t, g1 = _ticks(start)
+                    d_t, g2 = _ticks(dt if dt is not None else 0.0)
+                    rec = {"ev": "call", "oid": "-", "fn": name, "raised": raised, "start": s_t, "dt": d_t,
+                           "ongrid": bool(g1 and g2 and d_t > 0), "nsteps": -1 if ns is None else int(ns),
+                           "ptmin": min(lens) if lens else -1, "record_all": bool(arg.get("record_all", True)),
+                           "nrec": -1, "sorted": True, "grid": True, "last": 0, "lastgrid": False}
+                    if not raised and dt is not None:
+                        times = times_of(out)
+                        n, srt, _ = _grid(times, start, dt)
+                        rec.update(nrec=n, sorted=srt)
+                        if n:
+                            rec["last"], rec["lastgrid"] = _ticks(times[-1])
+                            if rec["record_all"]:
+                                rec["grid"] = _grid(times, start, dt)[2]
+                    _emit(rec)
+                except Exception as ex:  # pylint: disable=broad-except
+                    _emit({"ev": "hook-error", "where": name, "detail": repr(ex)[:200]})
+        fn.__wrapped__ = orig
+        setattr(sd_mod, name, fn)
+        if getattr(oqupy, name, None) is orig:
+            setattr(oqupy, name, fn)
+    wrap_fn("compute_dynamics", "process_tensor", lambda d: d.times)
+    wrap_fn("compute_dynamics_with_field", "process_tensor_list", lambda d: d.times)
     return oqupy
 
 
